@@ -1,6 +1,7 @@
 package rules
 
 import (
+	"fmt"
 	ssa "xvc/xssa"
 
 	"strings"
@@ -100,6 +101,9 @@ func poolRollback(c *q.Ctx) {
 		c.NeverAfter(uu, q.ToCall("State.undoTxInternal"), q.ToCall("State.undoUnconfirmedTx"), "dependants are rolled back before the transaction itself, never after")
 		c.ArgIs(uu, "State.undoUnconfirmedTx", 1, "p2[p3[p1.Txid][]]", 1, "the dependants are the graph's children of this transaction (the graph is keyed by the raw txid)")
 		c.Gate(uu, "State.undoUnconfirmedTx", q.ToCall("State.undoTxInternal"), q.Opt{K1Only: true})
+		for idx, what := range map[int]string{2: "the pool map", 3: "the dependency graph", 4: "the batch", 5: "the done-set", 6: "the replay list"} {
+			c.ArgIs(uu, "State.undoUnconfirmedTx", idx, fmt.Sprintf("p%d", idx), 1, "dependants are rolled back into "+what+" of the transaction they depend on (a dependant that is not recorded stays in the in-memory pool and is never re-admitted)")
+		}
 		// every transaction that was rolled back is recorded in the caller's done-set, whoever the caller is: the walk
 		// AND the block-play path (which passes no replay list) purge the in-memory pool from this set - an evicted
 		// transaction that stays in memory is packed into the node's next block and rolled back a second time
